@@ -604,6 +604,22 @@ class eval_abs(object):
             o.append((b, stop))
         return o
 
+    def const_compose(self, pieces, size):
+        # the constant that (piece, start, stop)... concatenate to, when
+        # every piece is an integer or a slice of one; None otherwise
+        if not size in tab_uintsize:
+            return None
+        rez = 0
+        for x, start, stop in pieces:
+            if isinstance(x, ExprInt):
+                v = int(x.arg)
+            elif isinstance(x, ExprSlice) and isinstance(x.arg, ExprInt):
+                v = int(x.arg.arg) >> x.start
+            else:
+                return None
+            rez |= (v & ((1<<(stop-start))-1)) << start
+        return ExprInt(tab_uintsize[size](rez & ((1<<size)-1)))
+
     def eval_ExprMem(self, e, eval_cache = None):
         if eval_cache is None:
             # (a default dictionary would be shared by every machine)
@@ -671,6 +687,10 @@ class eval_abs(object):
                     out = sorted(out, key=lambda x:x[1])
                     #for e, sa, sb in out:
                     #    print("%s %s %s"%(e, sa, sb))
+                    ee = self.const_compose(out, a.get_size())
+                    if ee is not None:
+                        # every piece is a constant: so is the cell
+                        return ee
                     ee = ExprSlice(ExprCompose(out), 0, a.get_size())
                     ee = expr_simp(ee)
                     return ee
